@@ -706,3 +706,15 @@ package db
 //@   assert before call#1 HasValue: res(GetFromNode, 1, 0).Signature != nil
 //@   tags C12
 //@ apply ErrFlow: (*DB).VerifySignature
+//@
+//@ // ===== C19: commits are merged into the collection they are addressed to (the collection id, i.e. the
+//@ // schema root), whatever version of it is active; a new schema version is derived from the version it patches
+//@ func getCollectionFromCollectionID -> (c, err)
+//@   assert before call#1 getCollections: arg2.CollectionID == res(Some[string], 1, 0) && callarg(Some[string], 1, 0) == collectionID && arg0 == db
+//@   requires !failed && !owned && !discardDeferred
+//@   modifies failed, owned, discardDeferred, commitCalls, committed, kvCommits, kvCommitOK, kvDiscards, newTxns
+//@   tags C19
+//@ func (*DB).updateSchema
+//@   assert before call#1 GetCollectionByID: arg1 == mapget(existingSchemaByName, schema.Name).VersionID
+//@   modifies failed, colSaves
+//@   tags C19
